@@ -115,7 +115,11 @@ func (s *Syncer) parallelSync(ctx context.Context, cs consensus.State, headers [
 	// process results in a separate goroutine
 	resps := make([]*Resp, len(reqs))
 	finishCh := make(chan []*Resp, len(reqs))
+	// errCh receives exactly one value, from the goroutine below; the "no
+	// progress" notification of the ticker branch has its own channel, so
+	// that goroutine's send can never block (it is waited for with wg.Wait)
 	errCh := make(chan error, 1)
+	stallCh := make(chan error, 1)
 	var wg sync.WaitGroup
 	wg.Add(1)
 	go func() {
@@ -199,7 +203,7 @@ func (s *Syncer) parallelSync(ctx context.Context, cs consensus.State, headers [
 			// requests, no progress can be made
 			if activeWorkers.Load() == 0 && len(respChan) == 0 && finished < len(reqs) {
 				select {
-				case errCh <- errors.New("all peers failed to sync blocks"):
+				case stallCh <- errors.New("all peers failed to sync blocks"):
 				default:
 				}
 			}
@@ -228,6 +232,13 @@ func (s *Syncer) parallelSync(ctx context.Context, cs consensus.State, headers [
 				}
 			}
 			queueRequest()
+
+		case err := <-stallCh:
+			close(reqChan)
+			once.Do(closeFinishCh)
+			cancel()
+			wg.Wait()
+			return err
 
 		case err := <-errCh:
 			close(reqChan)
